@@ -90,6 +90,9 @@ impl Monitor {
                 let (tb, utb) = (refcodec::encode(&pt.tree), refcodec::encode(&pu.tree));
                 let info1 = || format!("text={:?} text_bytes={} jsonb={} {}", lossy(&tt), hex(&tt), hex(&tb), show_args(args));
                 for (name, f) in self.unary.iter() {
+                    if ctx.miri && !rng.chance(1, 5) {
+                        continue; // the interpreter is ~4 orders of magnitude slower: a sample per case
+                    }
                     ctx.count("routes.text");
                     let base = guard(|| f(&tb, args));
                     let got = guard(|| f(&tt, args));
@@ -97,6 +100,9 @@ impl Monitor {
                 }
                 let info2 = || format!("a_text={:?} b_text={:?} a_jsonb={} b_jsonb={} {}", lossy(&tt), lossy(&ut), hex(&tb), hex(&utb), show_args(args));
                 for (name, f) in self.binary.iter() {
+                    if ctx.miri && !rng.chance(1, 3) {
+                        continue;
+                    }
                     ctx.count("routes.text");
                     let base = guard(|| f(&tb, &utb, args));
                     for (combo, a, b) in [("text,jsonb", &tt, &utb), ("jsonb,text", &tb, &ut), ("text,text", &tt, &ut)] {
@@ -221,20 +227,12 @@ impl Monitor {
                     s.extend_from_slice(*rng.pick(&[&b"\\q\"]"[..], b"\\u12G4\"]", b"\\", b"\\ud800\\u12\"]"]));
                     s
                 }
-                3 => {
-                    let mut s = xb.to_vec();
-                    if !s.is_empty() {
-                        let i = rng.below(s.len());
-                        s[i] ^= 1 << rng.below(8);
-                    }
-                    s
-                }
-                _ => {
-                    let mut s = xb.to_vec();
-                    s.extend_from_slice(&[0x40, 0, 0]);
-                    s
-                }
+                3 => rng.pick(&[&b""[..], b"\x80", b"\x40\x00", b"\x20\x00\x00\x00", b"\x80\x00\x00\x01", b"{\"a\":", b"[1,", b"\"abc"]).to_vec(),
+                _ => xb[..xb.len().min(4 + rng.below(5))].to_vec(),
             };
+            // (damaged encodings are *cut*, never altered in place: the byte-level accessors trust
+            // the UTF-8 of a string payload that lies within bounds, so flipped bits inside one
+            // would be undefined behaviour in the harness process, which no property covers)
             let all1: Vec<&F1> = self.unary.iter().chain(self.jsonb_only.iter()).collect();
             match rng.below(4) {
                 0 | 1 if !all1.is_empty() => {
